@@ -11,6 +11,7 @@ REPO=/repo
 OUT=${OUT:-bin/overlay}
 SRC_OVERRIDE=${SRC_OVERRIDE:-}
 rm -rf "$OUT"; mkdir -p "$OUT"
+printf "module overlayfiles\n" > "$OUT/go.mod" # keeps the generated files out of ./... of the verif module
 OUTABS=$(readlink -f "$OUT")
 entries=()
 for f in path_intersection.go font.go; do
